@@ -61,6 +61,7 @@ type pset uint64
 
 type derive struct {
 	sum     map[*ssa.Function][]pset
+	st      map[*ssa.Function]*storeSum
 	changed bool
 }
 
@@ -233,10 +234,262 @@ func (d *derive) flows(f *ssa.Function, v ssa.Value, seen map[ssa.Value]bool) ps
 			return d.flows(f, t.X, seen)
 		case *ssa.UnOp:
 			return d.flows(f, t, seen)
+		case *ssa.Next:
+			// key / element of a range over a map or a string: memory of what is ranged over
+			if rg, ok := t.Iter.(*ssa.Range); ok {
+				return d.flows(f, rg.X, seen)
+			}
 		}
 		return all(f)
 	}
 	return all(f)
+}
+
+// ---- through which parameters a function stores, and what it stores there ---------------
+// A may-analysis like the one above: the function may WRITE memory reached through parameter t
+// (a store through a pointer derived from t, a map update, an append or copy into a slice derived
+// from t, a delete / clear, a static call of a described function that does - summaries
+// substituted, fixpoint -, any other call that is handed such a pointer, slice or map, unless it
+// is known not to write its arguments), and the VALUES it stores there may be derived from the
+// parameters in `from` (the same relation as for results: the stored value is the parameter, a
+// slice / field / element / reinterpretation of it, or loaded through it; scalars and copies are
+// derived from nothing).  Memory of the function's own variables and of fresh allocations is
+// nobody's parameter.  A call of a method of an interface the module declares (Inspector,
+// AccumulativeBuffer, Iterator, ...) stands for the module's own implementations (class hierarchy
+// analysis, summaries substituted); an implementation the CALLER supplies - its iterator, its
+// buffer - is the caller's code run on the caller's behalf.
+type storeSum struct {
+	hit  pset
+	from [64]pset
+}
+
+func (s *storeSum) add(t, from pset) bool {
+	ch := false
+	for i := 0; i < 64; i++ {
+		if t&(pset(1)<<uint(i)) == 0 {
+			continue
+		}
+		if s.hit&(pset(1)<<uint(i)) == 0 || s.from[i]|from != s.from[i] {
+			ch = true
+		}
+		s.hit |= pset(1) << uint(i)
+		s.from[i] |= from
+	}
+	return ch
+}
+
+// the parameters whose memory an address may lie in
+func (d *derive) target(f *ssa.Function, addr ssa.Value) pset {
+	v := addr
+	for {
+		switch x := v.(type) {
+		case *ssa.FieldAddr:
+			v = x.X
+			continue
+		case *ssa.IndexAddr:
+			v = x.X
+			continue
+		}
+		break
+	}
+	switch v.(type) {
+	case *ssa.Alloc, *ssa.Global:
+		return 0
+	}
+	return d.flows(f, v, map[ssa.Value]bool{})
+}
+
+func (d *derive) val(f *ssa.Function, v ssa.Value) pset { return d.flows(f, v, map[ssa.Value]bool{}) }
+
+// may the callee write memory it is handed in a value of this type
+func writable(t types.Type) bool {
+	switch u := t.Underlying().(type) {
+	case *types.Basic:
+		return u.Kind() == types.UnsafePointer
+	case *types.Pointer, *types.Slice, *types.Map, *types.Interface, *types.Chan, *types.Signature:
+		return true
+	case *types.Struct:
+		for i := 0; i < u.NumFields(); i++ {
+			if writable(u.Field(i).Type()) {
+				return true
+			}
+		}
+	case *types.Array:
+		return writable(u.Elem())
+	}
+	return false
+}
+
+// functions outside the described packages that do not write memory they are handed (readers, parsers,
+// formatters returning new text), and those that write through their first argument only
+func outside(name string) (pure, first bool) {
+	for _, p := range []string{"strconv.Parse", "strconv.Format", "strconv.Itoa", "strconv.Atoi", "strconv.Quote", "bytes.Equal", "bytes.Compare", "bytes.Index", "bytes.Has",
+		"bytes.Contains", "strings.", "math.", "unicode/utf8.", "unicode.", "errors.New", "fmt.Errorf", "fmt.Sprint", "reflect.TypeOf", "reflect.ValueOf", "reflect.DeepEqual",
+		"(reflect.Value).", "(*reflect.rtype).", "(reflect.Type).", "(error).Error", "unsafe."} {
+		if strings.HasPrefix(name, p) {
+			return true, false
+		}
+	}
+	if strings.HasPrefix(name, "strconv.Append") || strings.HasPrefix(name, "unicode/utf8.Append") {
+		return false, true
+	}
+	return false, false
+}
+
+var unknownWriters = map[string]bool{}
+
+func (d *derive) storesOf(f *ssa.Function, sites map[ssa.CallInstruction][]*ssa.Function) {
+	sum := d.st[f]
+	rec := func(t, from pset) {
+		if t != 0 && sum.add(t, from) {
+			d.changed = true
+		}
+	}
+	for _, b := range f.Blocks {
+		for _, ins := range b.Instrs {
+			switch x := ins.(type) {
+			case *ssa.Store:
+				rec(d.target(f, x.Addr), d.val(f, x.Val))
+			case *ssa.MapUpdate:
+				rec(d.val(f, x.Map), d.val(f, x.Key)|d.val(f, x.Value))
+			case ssa.CallInstruction:
+				c := x.Common()
+				if bi, ok := c.Value.(*ssa.Builtin); ok {
+					switch bi.Name() {
+					case "append":
+						var from pset
+						if len(c.Args) > 1 {
+							if sl, ok := c.Args[1].Type().Underlying().(*types.Slice); ok && carries(sl.Elem()) {
+								from = d.val(f, c.Args[1])
+							}
+						}
+						rec(d.val(f, c.Args[0]), from)
+					case "copy":
+						var from pset
+						if sl, ok := c.Args[0].Type().Underlying().(*types.Slice); ok && carries(sl.Elem()) {
+							from = d.val(f, c.Args[1])
+						}
+						rec(d.val(f, c.Args[0]), from)
+					case "delete", "clear":
+						rec(d.val(f, c.Args[0]), 0)
+					}
+					continue
+				}
+				if callee := c.StaticCallee(); callee != nil {
+					if cs, ok := d.st[callee]; ok && len(callee.Params) == len(c.Args) {
+						for j := range c.Args {
+							if cs.hit&(pset(1)<<uint(j)) == 0 {
+								continue
+							}
+							var from pset
+							for k := range c.Args {
+								if cs.from[j]&(pset(1)<<uint(k)) != 0 {
+									from |= d.val(f, c.Args[k])
+								}
+							}
+							rec(d.val(f, c.Args[j]), from)
+						}
+						continue
+					}
+					pure, first := outside(callee.String())
+					if pure {
+						continue
+					}
+					if first && len(c.Args) > 0 {
+						rec(d.val(f, c.Args[0]), 0)
+						continue
+					}
+					unknownWriters[callee.String()] = true
+				}
+				if c.IsInvoke() {
+					if pure, _ := outside(c.Method.FullName()); pure {
+						continue
+					}
+					if c.Method.Pkg() != nil && own(c.Method.Pkg()) {
+						// a method of an interface the module declares: the module's own implementations (class
+						// hierarchy analysis) with their summaries; one supplied by the caller is the caller's code
+						args := append([]ssa.Value{c.Value}, c.Args...)
+						for _, callee := range sites[x] {
+							cs, ok := d.st[callee]
+							if !ok || len(callee.Params) != len(args) {
+								continue
+							}
+							for j := range args {
+								if cs.hit&(pset(1)<<uint(j)) == 0 {
+									continue
+								}
+								var from pset
+								for k := range args {
+									if cs.from[j]&(pset(1)<<uint(k)) != 0 {
+										from |= d.val(f, args[k])
+									}
+								}
+								rec(d.val(f, args[j]), from)
+							}
+						}
+						continue
+					}
+					unknownWriters[c.Method.FullName()] = true
+				}
+				// not described: may write whatever it is handed, and store there whatever it is handed
+				var t, from pset
+				if c.IsInvoke() || c.StaticCallee() == nil {
+					from |= d.val(f, c.Value)
+					if writable(c.Value.Type()) {
+						t |= d.val(f, c.Value)
+					}
+				}
+				for _, a := range c.Args {
+					v := d.val(f, a)
+					from |= v
+					if writable(a.Type()) {
+						t |= v
+					}
+				}
+				rec(t, from)
+			}
+		}
+	}
+}
+
+type storeRow struct {
+	target int
+	from   []int
+}
+
+func storesThrough(fns []*ssa.Function, sites map[ssa.CallInstruction][]*ssa.Function) [][]storeRow {
+	d := &derive{sum: map[*ssa.Function][]pset{}, st: map[*ssa.Function]*storeSum{}}
+	for _, f := range fns {
+		d.sum[f] = make([]pset, f.Signature.Results().Len())
+		d.st[f] = &storeSum{}
+	}
+	for round := 0; round < 64; round++ {
+		d.changed = false
+		for _, f := range fns {
+			d.function(f)
+			d.storesOf(f, sites)
+		}
+		if !d.changed {
+			break
+		}
+	}
+	out := make([][]storeRow, len(fns))
+	for i, f := range fns {
+		s := d.st[f]
+		for j := range f.Params {
+			if s.hit&(pset(1)<<uint(j)) == 0 {
+				continue
+			}
+			row := storeRow{target: j}
+			for k := range f.Params {
+				if s.from[j]&(pset(1)<<uint(k)) != 0 {
+					row.from = append(row.from, k)
+				}
+			}
+			out[i] = append(out[i], row)
+		}
+	}
+	return out
 }
 
 func (d *derive) function(f *ssa.Function) {
@@ -448,4 +701,48 @@ func main() {
 	}
 	fmt.Println(strings.Join(rows, ";\n"))
 	fmt.Println("].")
+
+	// (id, [(parameter t the function may write memory through, parameters the values stored there may be derived from)])
+	sites := map[ssa.CallInstruction][]*ssa.Function{}
+	for _, f := range fns {
+		if n := cg.Nodes[f]; n != nil {
+			for _, e := range n.Out {
+				if _, ok := id[e.Callee.Func]; ok && e.Site != nil && e.Site.Common().IsInvoke() {
+					sites[e.Site] = append(sites[e.Site], e.Callee.Func)
+				}
+			}
+		}
+	}
+	fmt.Println("\n(* (id, [(t, from)]): the function may write memory reached through parameter t (store through a pointer,")
+	fmt.Println("   map update, append / copy into a slice, a call that does), and the values stored there may be derived from")
+	fmt.Println("   the parameters in from (scalars, copies and fresh memory: from nothing); receiver first, counted from 0;")
+	fmt.Println("   methods of the module's interfaces: the module's own implementations, one supplied by the caller (an iterator, a buffer)")
+	fmt.Println("   is the caller's own code; functions writing through no parameter are left out *)")
+	fmt.Println("Definition fp_store_from : list (N * list (N * list N)) := [")
+	st := storesThrough(fns, sites)
+	rows = rows[:0]
+	for i := range fns {
+		if len(st[i]) == 0 {
+			continue
+		}
+		var es []string
+		for _, r := range st[i] {
+			var ps []string
+			for _, j := range r.from {
+				ps = append(ps, fmt.Sprint(j))
+			}
+			es = append(es, fmt.Sprintf("(%d, [%s])", r.target, strings.Join(ps, "; ")))
+		}
+		rows = append(rows, fmt.Sprintf("  (%d, [%s])", i, strings.Join(es, "; ")))
+	}
+	fmt.Println(strings.Join(rows, ";\n"))
+	fmt.Println("].")
+	if os.Getenv("FOOTPRINT_DEBUG") != "" {
+		var us []string
+		for u := range unknownWriters {
+			us = append(us, u)
+		}
+		sort.Strings(us)
+		fmt.Fprintln(os.Stderr, "undescribed callees taken to write what they are handed:", strings.Join(us, ", "))
+	}
 }
